@@ -1,12 +1,13 @@
 (* C07 — decode a case, run the model, encode the observable.
    case: ( kind b c gz pattern ( (envname envvalue) ... ) file ( (path bytes) ... ) ( op ... ) )
-     kind: 0 FixedWindowRoller, 1 DeleteRoller;  gz: 1 when the pattern's extension is "gz"
+     kind: 0 FixedWindowRoller, 1 DeleteRoller;  gz: the generator's idea of "compressed" (not read: Model/PathExt.v decides)
      op:   (0) call roll on the file as it is | (1 bytes) write the file, then roll
    result: "panic" | ( (status ( (path bytes) ... )) ... )   one entry per op,
      status 0 = Ok, 1 = Err; listing = all regular files after the op.
    A gzip archive is reported by the harness as 0x1f 0x8b ++ decompressed bytes; the
    model uses exactly that tagging as its compression function. *)
 From L4 Require Import Common.Val Common.FSModel Model.Window Model.Subst.
+From L4 Require Model.PathExt.
 Local Open Scope N_scope.
 
 Definition dec_pair (v : vl) : option (list N * list N) :=
@@ -73,7 +74,9 @@ Definition c07_run (v : vl) : vl :=
   | VL [VN kind; VN b; VN c; VN gz; VS pat; env; VS file; init; ops] =>
     match val_list dec_pair env, val_list dec_pair init, val_list dec_op ops with
     | Some env, Some init, Some ops =>
-      let cm : cmode := if gz =? 0 then None else Some gz_tag in
+      (* the builder's decision, from the pattern text (Path::extension): the case's gz field is the generator's
+         own computation of it and is not read *)
+      let cm : cmode := if PathExt.compressed pat then Some gz_tag else None in
       let roller := if kind =? 0
                     then (fun (cwd : path) (e : envt) file f =>
                             roll (fun i => under cwd (archive_name e pat i)) cm None b c file f)
